@@ -156,6 +156,10 @@ def make_plan(seed: int, tier: str, index: int) -> dict[str, Any]:
                          "abort": {"in": f.choice(["from_chart_line", "from_chart_line", "parse_data_from"]),
                                    "at": f.choice([1, 2, 3, 5, 8, 13, 21, 34, 55]),
                                    "exc": f.choice(["MemoryError", "MemoryError", "SimAbort"])}})
+        # ... and afterwards the junk-free file once more: whatever the aborted parse had
+        # collected but not yet reported must not be reported against another file
+        variants.append({"name": "O~", "text": variants[0]["text"], "junk": [], "like": "O",
+                         "fault": "parse_after_aborted_parse"})
     elif not concurrent and f.random() < 0.12:
         # logging state is part of the process history: the first chart of the process is parsed
         # while the application has logging switched off; then logging is switched on again
@@ -307,7 +311,7 @@ def execute(plan: dict[str, Any]) -> dict[str, Any]:
             # of the property): the variant must produce exactly one renderable report more than
             # its junk-free relative for every injected line that is unparsable
             if (fam != "song" and r["kind"] == "ok" and ref["kind"] == "ok"
-                    and expected_reports is not None and v["junk"]):
+                    and expected_reports is not None and (v["junk"] or v["name"] == "O~")):
                 delta = _n_reports(r) - _n_reports(ref)
                 if delta != expected_reports:
                     cls = "strict-junk-not-reported" if delta < expected_reports else "over-reported"
